@@ -3,7 +3,8 @@ From Coq Require Import String ZArith List Bool Arith.
 From NSL Require Import Base.Types Base.Syntax Model.PyNum Model.IR Model.VM Model.PyTree Model.Elab Model.Lower Spec.RefSem Harness.RunLib Proofs.HistoryProofs Proofs.CallProofs
      Proofs.OpsAgree Proofs.LowerExprProofs Proofs.ElabExprProofs Proofs.ReturnExprProofs Proofs.CallAgreeProofs Proofs.LowerStmtProofs Proofs.ElabStmtProofs
      Proofs.StraightLineProofs Proofs.StraightLineExample Proofs.HistoryRefineProofs Proofs.HistoryExample
-     Proofs.FlowSimProofs Proofs.FlowSimExample Proofs.HistoryFlowProofs Proofs.HistoryFlowExample.
+     Proofs.FlowSimProofs Proofs.FlowSimExample Proofs.HistoryFlowProofs Proofs.HistoryFlowExample
+     Proofs.LoopSimProofs Proofs.LoopSimExample Proofs.HistoryLoopProofs Proofs.LoopOptExample.
 From NSLDyn Require Gen_VM Agree_VM Gen_Shapes.
 Import ListNotations.
 
@@ -42,7 +43,7 @@ Proof. exact other_vm_untouched. Qed.
     to the results rs and the globals g', the VM model, for every sufficient fuel, runs the same history to exactly those
     results and to a state whose globals agree with g' again -- so each invocation saw the globals its predecessors left,
     started with fresh locals, and changed globals only through its assignments.  (SetGlobal / GetGlobal of the host are
-    the agreement relation [GA] itself.)  Conditionals: the next theorem.  Missing for the full statement: loops, calls, aggregates. *)
+    the agreement relation [GA] itself.)  Conditionals and while loops: the next theorems.  Missing for the full statement: other loops, calls, aggregates. *)
 Theorem C15_history_refinement_partial : forall (M : module) (P : program) (calls : list hcall),
   (forall c, In c calls -> fn_ok M P (fst c) /\ Forall2 (fun p w => has_ty w (fst p)) (f_args (fst c)) (snd c)) ->
   forall fuel g vs rs g', GA M g vs -> ref_hist M fuel g calls = ROk (rs, g') ->
@@ -76,6 +77,21 @@ Example C15_history_conditionals_example :
      exists vl vs', vm_hist fuel' hf_P hf_vs hf_calls = Some (vl, vs') /\ Forall2 (fun s v => exists w, s = SV w /\ v = v_of w) rs vl /\ GA fs_M g' vs') /\
   (match vm_hist 100 hf_P hf_vs hf_calls with Some (_, vs') => Some (globals vs') | None => None end) = Some [("g"%string, VInt 0)].
 Proof. exact (conj hf_history (proj2 hf_values)). Qed.
+
+(** the same for functions WITH WHILE LOOPS (the fragment of C01_loop_functions_partial) *)
+Theorem C15_history_refinement_loops_partial : forall (M : module) (P : program) (calls : list hcall),
+  (forall c, In c calls -> fn_ok_loop M P (fst c) /\ Forall2 (fun p w => has_ty w (fst p)) (f_args (fst c)) (snd c)) ->
+  forall fuel g vs rs g', GA M g vs -> ref_hist M fuel g calls = ROk (rs, g') ->
+  exists n, forall fuel', n <= fuel' ->
+    exists vl vs', vm_hist fuel' P vs calls = Some (vl, vs') /\ Forall2 (fun s v => exists w, s = SV w /\ v = v_of w) rs vl /\ GA M g' vs'.
+Proof. exact history_refines_loop. Qed.
+(** non-vacuity: the loop function of C01 called three times (4, 0 and 2 iterations) from g = 5: the theorem applies; g = 0 afterwards *)
+Example C15_history_loops_example :
+  (exists rs g', ref_hist lp_M 40 hl_g hl_calls = ROk (rs, g') /\
+   exists n, forall fuel', n <= fuel' ->
+     exists vl vs', vm_hist fuel' hl_P hl_vs hl_calls = Some (vl, vs') /\ Forall2 (fun s v => exists w, s = SV w /\ v = v_of w) rs vl /\ GA lp_M g' vs') /\
+  (match vm_hist 300 hl_P hl_vs hl_calls with Some (_, vs') => Some (globals vs') | None => None end) = Some [("g"%string, VInt 0)].
+Proof. exact (conj hl_history hl_values). Qed.
 
 (** the interpreter arms that write the VM's global table in nsl/VM.py on this run: STORE only *)
 Theorem C15_global_writers :
